@@ -1,25 +1,54 @@
 //go:build verif
 
 // Machine-checked contracts for package peerhandoutpolicy (comment-only; read by /verif/govc).
-// Property C26: an announce response never lists the announcing peer.
+// Property C26: an announce response never lists the announcing peer and is ordered by the
+// configured priority.
 
 package peerhandoutpolicy
 
-//@ specfunc ppok(x *peerPriorityInfo, source *core.PeerInfo) bool = x != nil && allocated(x) && x.peer != nil && allocated(x.peer) && x.peer.PeerID != source.PeerID
+// rank: the priority the configured policy gives a peer (smaller is handed out first). Under the
+// completeness policy: seeders 0, origins 1, incomplete peers 2; under the default policy all 0.
+//@ specfunc crank(x *core.PeerInfo) int = (x.Origin ? 1 : (x.Complete ? 0 : 2))
+//@ specfunc rank(pol assignmentPolicy, x *core.PeerInfo) int = (dyntype(pol) == typeid(*completenessAssignmentPolicy) ? crank(x) : 0)
+//@ specfunc known(pol assignmentPolicy) bool = pol != nil && (dyntype(pol) == typeid(*completenessAssignmentPolicy) || dyntype(pol) == typeid(*defaultAssignmentPolicy))
+
+//@ specfunc ppok(x *peerPriorityInfo, source *core.PeerInfo, pol assignmentPolicy) bool = x != nil && allocated(x) && x.peer != nil && allocated(x.peer) && x.peer.PeerID != source.PeerID && x.priority == rank(pol, x.peer)
+
+// The two implementations of assignmentPolicy.
+//@ func completenessAssignmentPolicy.assignPriority
+//@   requires peer != nil && allocated(peer)
+//@   ensures seeders_origins_incomplete: result0 == crank(peer)
+
+//@ func defaultAssignmentPolicy.assignPriority
+//@   ensures all_equal: result0 == 0
+
+// NewPriorityPolicy installs the policy named by the configuration.
+//@ func NewPriorityPolicy
+//@   modifies *
+//@   ensures configured: result1 == nil ==> result0 != nil && allocated(result0) && known(result0.policy)
+//@   ensures completeness: result1 == nil && priorityPolicy == _completenessPolicy ==> dyntype(result0.policy) == typeid(*completenessAssignmentPolicy)
+//@   ensures unknown_rejected: priorityPolicy != _completenessPolicy && priorityPolicy != _defaultPolicy ==> result1 != nil
+
+// The less closure of SortPeers: compares the assigned priorities.
+//@ func PriorityPolicy.SortPeers$1
+//@   requires 0 <= i && i < len(peerPriorities) && 0 <= j && j < len(peerPriorities)
+//@   requires peerPriorities[i] != nil && allocated(peerPriorities[i]) && peerPriorities[j] != nil && allocated(peerPriorities[j])
+//@   ensures order: result <==> peerPriorities[i].priority < peerPriorities[j].priority
 
 // SortPeers returns peers of the input other than the source (compared by PeerID, the identity
-// the tracker uses), at most as many as it was given. The order produced by sort.Slice is not
-// under contract (the less closure is not interpreted).
+// the tracker uses), at most as many as it was given, ordered by the configured priority: no peer
+// is listed before one of strictly better (smaller) rank.
 //@ func PriorityPolicy.SortPeers
-//@   requires p != nil && source != nil && allocated(source)
+//@   requires p != nil && allocated(p) && known(p.policy) && source != nil && allocated(source)
 //@   requires forall j int :: 0 <= j && j < len(peers) ==> peers[j] != nil && allocated(peers[j])
 //@   modifies allmem *core.PeerInfo, allmem *peerPriorityInfo
 //@   ensures excluded: forall k int :: 0 <= k && k < len(result) ==> result[k] != nil && result[k].PeerID != source.PeerID
 //@   ensures size: len(result) <= len(peers)
+//@   ensures ordered: forall a int, b int :: 0 <= a && a < b && b < len(result) ==> rank(p.policy, result[a]) <= rank(p.policy, result[b])
 //@   loop 0 invariant idx: 0 - 1 <= rangeindex && rangeindex < len(peers) && len(peerPriorities) <= rangeindex + 1 && 0 <= len(peerPriorities)
 //@   loop 0 invariant input: forall j int :: 0 <= j && j < len(peers) ==> peers[j] != nil && allocated(peers[j])
-//@   loop 0 invariant pp_ok: forall k int :: 0 <= k && k < len(peerPriorities) ==> ppok(peerPriorities[k], source)
-//@   loop 0 invariant src: source.PeerID == old(source.PeerID)
+//@   loop 0 invariant pp_ok: forall k int :: 0 <= k && k < len(peerPriorities) ==> ppok(peerPriorities[k], source, p.policy)
 //@   loop 1 invariant idx: 0 - 1 <= rangeindex && rangeindex < len(peerPriorities) && len(sortedPeers) == rangeindex + 1 && len(peerPriorities) <= len(peers)
-//@   loop 1 invariant pp_ok: forall k int :: 0 <= k && k < len(peerPriorities) ==> ppok(peerPriorities[k], source)
-//@   loop 1 invariant out_ok: forall k int :: 0 <= k && k < len(sortedPeers) ==> sortedPeers[k] != nil && sortedPeers[k].PeerID != source.PeerID
+//@   loop 1 invariant pp_ok: forall k int :: 0 <= k && k < len(peerPriorities) ==> ppok(peerPriorities[k], source, p.policy)
+//@   loop 1 invariant sorted: forall a int, b int :: 0 <= a && a < b && b < len(peerPriorities) ==> peerPriorities[a].priority <= peerPriorities[b].priority
+//@   loop 1 invariant out_ok: forall k int :: 0 <= k && k < len(sortedPeers) ==> sortedPeers[k] != nil && sortedPeers[k] == peerPriorities[k].peer
